@@ -392,7 +392,7 @@ def run_shard(ctx):
             expand = rng.random() < 0.3
             sep = rng.choice([".", "/"])
             run_case(ctx, text, data, op, term, inv, mode, alias, expand, sep)
-            if ncli < wcli and rng.random() < 0.05:
+            if ncli < wcli and rng.random() < 0.05 and not any(c in term for c in "=^$%!<>~*&.,()") :
                 run_case(ctx, text, data, op, term, inv, mode, alias, expand, sep, via="yaml-paths", workdir=workdir)
                 ncli += 1
         n += 1
@@ -409,7 +409,7 @@ def run_shard(ctx):
         vocab = gp.doc_vocab(data)
         op = rng.choice(list(OPS))
         term = gen_term(rng, vocab, op)
-        if any(c in term for c in "[]'\"\\ ") or not term:
+        if any(c in term for c in "[]'\"\\ =^$%!<>~*&.,()") or not term:
             term = "a"
         run_case(ctx, text, data, op, term, False, rng.choice(["values", "keys", "keysonly"]), rng.choice(list(ALIAS_MODES)),
                  rng.random() < 0.3, rng.choice([".", "/"]), via="yaml-paths", workdir=workdir)
